@@ -1360,6 +1360,27 @@ def q_sink(cfg):
         res.ob(ok, {'rule': 'Q-15', 'function': sh(f.name), 'site': fileline(f.loc), 'verdict': 'discharged' if ok else 'VIOLATION'})
         if not ok:
             res.find(f, f.loc, '%s does not call %s(%s) exactly once on every path: deferred deallocations are executed without the memory ever being returned (or with another pointer)' % (sh(f.name), want, arg), key='Q-15:%s' % ('qsbr' if f.cls == Q else 'request'), config=cfg.name)
+        # Q-15b: the free is the LAST use of the pointer (the debug callback reads the block: it comes first)
+        if ok and f.cls == Q:
+            from ..engine import reachable_from
+            cb, ci, ce = calls[0]
+            after = reachable_from(f, cb, False)
+            late = []
+            for b, i, e in f.elements():
+                if e is ce or is_assert_elem(e):
+                    continue
+                if not ((b == cb and i > ci) or (b != cb and b in after)):
+                    continue
+                if e.get('k') == 'call':
+                    for a in e.get('args', []):
+                        r = f.ref_of(a)
+                        if r and f.params and r[0] == f.params[0]['did']:
+                            late.append(e)
+            res.count('sink functions')
+            okb = not late
+            res.ob(okb, {'rule': 'Q-15b', 'function': sh(f.name), 'fact': 'nothing receives the pointer after free_aligned', 'verdict': 'discharged' if okb else 'VIOLATION'})
+            if not okb:
+                res.find(f, late[0].get('loc'), 'qsbr::deallocate hands the pointer to `%s` after free_aligned(pointer): the block has already been returned to the allocator when it is read (in assertion-enabled builds the callback olc_node_header::check_on_dealloc reads the lock of the freed node) - use of reclaimed memory' % late[0].get('name'), key='Q-15b:use-after-free', config=cfg.name)
     # ---- Q-16
     ctor = [f for f in cfg.functions if f.blocks and f.cls == PT and f.d.get('ctor') and not f.params]
     resume = fn(cfg, PT, 'qsbr_resume')
